@@ -92,6 +92,9 @@ type Spec struct {
 	// Bare: stage code writes the files its outputs name and nothing else (no unreferenced
 	// files, nothing in the temporary directory): a fork may then have nothing to reclaim
 	Bare bool `json:"bare"`
+	// EmptyTmp: every job leaves three zero-length files (lock files, markers) in its
+	// temporary directory and nothing else there
+	EmptyTmp bool `json:"empty_tmp"`
 	// PostTwice: mrp is killed after post-processing has moved the files and before it has
 	// rewritten the outputs record; the restarted mrp post-processes again
 	PostTwice bool `json:"post_twice"`
@@ -906,10 +909,16 @@ func (d *Driver) begin(j *job) {
 			pc, _ := Untag(j.inv.Couts)
 			missing = append(missing, d.checkFiles(pc)...)
 		}
-		if !d.spec.Bare {
+		if !d.spec.Bare || d.spec.EmptyTmp {
 			tmp := path.Join(j.vj.MetadataPath, "tmp")
 			os.MkdirAll(tmp, 0755)
-			writeFile(path.Join(tmp, "scratch.dat"), []byte("temporary file of "+j.key+"\n"))
+			if d.spec.EmptyTmp {
+				for _, n := range []string{"scratch.dat", "db.lock", ".started"} {
+					writeFile(path.Join(tmp, n), nil)
+				}
+			} else {
+				writeFile(path.Join(tmp, "scratch.dat"), []byte("temporary file of "+j.key+"\n"))
+			}
 			if d.spec.TmpLink {
 				ext := path.Join(path.Dir(canon(d.psdir)), "scratch-elsewhere")
 				os.MkdirAll(ext, 0755)
@@ -1416,7 +1425,18 @@ func Run(spec *Spec, workdir string) (res *Result) {
 			}
 		}
 		d.mu.Unlock()
-		time.Sleep(20 * time.Millisecond) // let asynchronous cleanup goroutines of the old runtime end
+		// let asynchronous cleanup goroutines of the old runtime end (a real mrp's die with
+		// it): wait until nothing has been recorded and no goroutine has come or gone for
+		// a while
+		time.Sleep(20 * time.Millisecond)
+		for quiet, n, g, t0 := 0, d.tr.Len(), runtime.NumGoroutine(), time.Now(); quiet < 4 && time.Since(t0) < 3*time.Second; {
+			time.Sleep(15 * time.Millisecond)
+			if n2, g2 := d.tr.Len(), runtime.NumGoroutine(); n2 == n && g2 == g {
+				quiet++
+			} else {
+				quiet, n, g = 0, n2, g2
+			}
+		}
 		spec.Faults = nil
 		spec.Hold = nil
 		d.frozen = false
@@ -1721,9 +1741,7 @@ func (d *Driver) finalSweep(ctx context.Context) {
 			continue
 		}
 		if _, err := os.Lstat(path.Dir(p)); err == nil {
-			if ents, _ := os.ReadDir(path.Dir(p)); len(ents) > 0 {
-				tmps = append(tmps, j)
-			}
+			tmps = append(tmps, j)
 		}
 	}
 	sort.Strings(present)
